@@ -109,6 +109,7 @@ type FuncContract struct {
 	Sinks       []SinkDecl // objects of this package that callees reach through an interface (callback frame rule)
 	GhostEntry  bool     // the ghost update happens at entry (ghostdef clauses are then proved at exit like any ensures)
 	InlineCalls []string // callees whose body is inlined here although they have a contract of their own
+	UseLemmas  []string // lemmas of the spec libraries given to this function's obligations
 	Opaque     []string // defined spec functions treated as uninterpreted in this function's obligations
 	Ghost      []string // ghost lvalues (Xxh(x) ...) re-defined at exit by the ghostdef clauses
 }
@@ -639,6 +640,8 @@ func loadContractFile(file string, out map[string]*FuncContract) error {
 				return fail(fmt.Errorf("sink: want `sink <expr> implements <Type.Method>`"))
 			}
 			cur.Sinks = append(cur.Sinks, SinkDecl{strings.TrimSpace(parts[0]), strings.TrimSpace(parts[1])})
+		case "lemmas":
+			cur.UseLemmas = append(cur.UseLemmas, strings.Fields(rest)...)
 		case "opaque":
 			cur.Opaque = append(cur.Opaque, strings.Fields(rest)...)
 		case "inline-calls":
